@@ -7,7 +7,7 @@ def main():
     from bardic.compiler.compiler import BardCompiler
     r = random.Random(sub)
     g = c01.SrcGen(r, depth=depth)
-    ast_ = g.story(); src = c01.print_story(ast_)
+    ast_ = g.story(); src = c01.decorate(c01.print_story(ast_), random.Random(sub ^ 0x5EED), g.stats)
     print(src)
     real = BardCompiler().compile_string(src)
     tb = S.Tables()
